@@ -1498,8 +1498,9 @@ func (w *world) audit(res *hx.Result, spec *worldSpec, ci int, cs *contactSpec, 
 		present, _ := presence(cs, p)
 
 		type qv struct {
-			text string
-			d    *day
+			text    string
+			d       *day
+			foreign bool // written with an explicit UTC offset that is not the environment's at that instant
 		}
 		var vals []qv
 		if p.VT == "number" {
@@ -1510,6 +1511,15 @@ func (w *world) audit(res *hx.Result, spec *worldSpec, ci int, cs *contactSpec, 
 			for i := range spec.Days {
 				d := spec.Days[i]
 				vals = append(vals, qv{text: formatDay(envs.DateFormat(spec.DateFormat), d, r), d: &d})
+				if r.Chance(1, 2) {
+					// an instant of that environment day, written as ISO text with another zone's offset (often another date there)
+					t := time.Date(d.Y, time.Month(d.M), d.D, r.Intn(24), 30, 0, 0, w.tz)
+					fz := time.FixedZone("", hx.Pick(r, []int{0, 5 * 3600, -8 * 3600, 13 * 3600, -11 * 3600, 5*3600 + 1800}))
+					ld := localDay(w.tz, t)
+					_, envOff := t.In(w.tz).Zone()
+					_, fOff := t.In(fz).Zone()
+					vals = append(vals, qv{text: t.In(fz).Format("2006-01-02T15:04:05Z07:00"), d: &ld, foreign: envOff != fOff})
+				}
 				if r.Chance(1, 3) {
 					// neighbours of interesting days
 					for _, dd := range []int{-1, 1} {
@@ -1571,6 +1581,8 @@ func (w *world) audit(res *hx.Result, spec *worldSpec, ci int, cs *contactSpec, 
 					class := "date-comparison:calendar-day"
 					if transitionDay(w.tz, *v.d) {
 						class = "date-comparison:dst-transition-day"
+					} else if v.foreign {
+						class = "date-comparison:value-with-foreign-offset"
 					}
 					res.Fail(class, fi(p, "=", v.text, fmt.Sprintf("value %s = %s local", t.Format(time.RFC3339Nano), t.In(w.tz).Format(time.RFC3339Nano))),
 						fmt.Sprintf("value is on local day %s, queried day %s (%s long): expected </=/> %v/%v/%v, got %v/%v/%v",
